@@ -196,6 +196,35 @@ def check_raise_run(w, ys, T0, Y0, k, inp, res):
     res.outcomes.add('raise-ok:%s' % hook)
 
 
+class FalsyRec(Rec):
+    """Hooks returning falsy values that are not None: they are values like any other."""
+
+    def on_match(self, base, name):
+        self._ev('on_match', base, name)
+        return 0
+
+    def on_skip(self, base, name):
+        self._ev('on_skip', base, name)
+        return ''
+
+    def on_error(self, base, name):
+        self._ev('on_error', base, name)
+        return ()
+
+
+def check_falsy_values(tname, root, res):
+    """Values returned by the hooks are passed through unchanged - also 0, '' and () (only None means "no value")."""
+    res.n['evaluations'] += 1
+    res.n['distinct_nontrivial'] += 1
+    w = FalsyRec(root, '*.txt', None, flags=WM.RECURSIVE)
+    ys = w.match()
+    want = [{'on_match': 0, 'on_skip': '', 'on_error': ()}[h] for h, _f in w.trace if h in ('on_match', 'on_skip', 'on_error')]
+    res.outcomes.add('falsy-ok' if ys == want else 'falsy-dropped')
+    if ys != want:
+        res.add_violation(ID, run.viol('hook-value-dropped', {'tree': tname, 'hooks': 'on_match->0, on_skip->\'\', on_error->()'},
+                                       run.jsonable(want), run.jsonable(ys)))
+
+
 def check_consumer_kill(tname, root, res):
     """kill() by the consumer between any two results."""
     for skip_values in (False, True):
@@ -500,6 +529,7 @@ def run_chunk(chunk):
         if kind == 'abort':
             check_abort_points(tname, root, res)
             check_consumer_kill(tname, root, res)
+            check_falsy_values(tname, root, res)
             res.samples.append({'tree': tname, 'abort': 'kill() from hook invocation k, all k'})
         elif kind == 'seq':
             check_sequences(tname, root, chunk[2], res, [chunk[3]])
@@ -536,6 +566,9 @@ def replay(v):
             nb = out.get('results_before', 0)
             bad = ys != Y0[:len(ys)] or len(ys) - nb > 1
             return {'violates': bad, 'observed': {'results': ys}}
+        if k == 'hook-value-dropped':
+            check_falsy_values(inp['tree'], root, r)
+            return {'violates': bool(r.viol), 'observed': r.viol[0]['observed'] if r.viol else 'ok'}
         if 'results_before_kill' in inp:
             check_consumer_kill(inp['tree'], root, r)
         else:
